@@ -8,7 +8,7 @@ CFG = {
                                    ("free", "-mode free -tier %s" % tier)],
     "signatures": {},
     "rule": "hist: every history of length <= 4 over {add x, rem x, clr, add 2 0, rem 1 2 1 | x in 0..2} for the unordered, stable and "
-            "sorted set (sorted: natural and reversed comparator), each followed by the full query battery (Size/IsEmpty/All/String/"
+            "sorted set (sorted: five comparators — natural and reversed order returning -1/0/1, and a-b, 3*(a-b), b-a returning magnitudes), each followed by the full query battery (Size/IsEmpty/All/String/"
             "Contains with 0..3 arguments/AnyMatch/AllMatch/FirstMatch over 5 predicates) and a clone-then-mutate-both-sides probe; "
             "algebra: all 27 triples of implementations x all triples of preparation histories (member orders, spare capacity left by "
             "in-place removals) with Union/Intersection/Difference of arity 0..3 (aliased operands included), every live object re-read "
@@ -17,7 +17,7 @@ CFG = {
             "capacity; free: the same random and power generators under the real (seeded) shuffle, order-independent observables only. "
             "A case is non-trivial when it appends in place into capacity left behind by an earlier in-place removal, or calls "
             "Union/Intersection/Difference, or Powerset/Partitions with n>=2; distinct = distinct (header, op list).",
-    "assumptions": ["all sets in one case share one equality and one comparator consistent with it (Go int, natural or reversed order)",
+    "assumptions": ["all sets in one case share one equality and one comparator consistent with it (Go int; natural or reversed order, results -1/0/1 or of arbitrary magnitude; the model looks only at the sign, as CompareFunc's contract allows)",
                     "range loops over s.members / All() are modelled as reading the sequence once: in this package the set that is iterated is never the set that the loop body mutates (the mutated set is always a fresh clone); the heap-layer frame theorems show the two readings coincide",
                     "Powerset/Partitions are modelled on set values: every set they create is mutated only before it is stored in another set (by inspection); the per-operation heap-to-value simulation is proved (C16_no_operand_modified, C16_heap_refines_values)",
                     "the fallback branch of the modelled equality closures set_eq/part_eq (a.Equal(b) as a total boolean) is never taken: vequal returns Ok on every pair of values (vequal_total)",
